@@ -13,6 +13,7 @@ mod c16;
 mod c17;
 mod c18;
 mod c19;
+mod c20;
 mod dist;
 
 fn main() {
@@ -37,6 +38,7 @@ fn main() {
                 "C15" => c15::replay(cases, verd),
                 "C16" => c16::replay(cases, verd),
                 "C17" => c17::replay(cases, verd),
+                "C20" => c20::replay(cases, verd),
                 "C18" => c18::replay(cases, verd, args.get(5).and_then(|s| s.parse().ok()).unwrap_or(2)),
                 _ => {
                     eprintln!("no replay table for {}", prop);
